@@ -15,9 +15,12 @@ import (
 
 type c09Case struct {
 	shellCfg
-	Kind    string   `json:"kind"` // nav | prefix | substring | isearch
-	T       string   `json:"t"`    // in-progress text
-	Back    int      `json:"back"` // cursor moved back by this many characters before searching
+	Kind string `json:"kind"` // nav | prefix | substring | isearch
+	T    string `json:"t"`    // in-progress text
+	Back int    `json:"back"` // cursor moved back by this many characters before searching
+	// editing commands run on the typed text before the first history command (undo, deletions,
+	// kills, more text): the in-progress text is then what the buffer holds at that moment
+	Edit    []string `json:"edit,omitempty"`
 	Ops     []string `json:"ops"`
 	Pattern string   `json:"pattern,omitempty"`
 	Leave   string   `json:"leave,omitempty"` // esc | ret | abort
@@ -42,7 +45,11 @@ var c09Hists = [][]string{
 	{"Echo Upper", "echo lower", "ECHO ALL", "print"},
 	{"foo(bar)", "foo[1]", "a.b", "a+b", "((", "axb", "aab", "ab"},
 	{"wörld", "世界 hello", "hello world"},
+	{"aéy one", "aèz two", "世界 hello", "世間 world", "aé", "éa"},
 }
+
+var c09Edits = map[string]string{"undo": "\x1f", "bs": "\x7f", "killw": "\x17", "killl": "\x15", "more": "xy", "bword-killword": "\x1bb\x1bd", "bol-killword": "\x01\x1bd", "yank": "\x19"}
+var c09EditNames = []string{"undo", "undo", "bs", "killw", "killl", "more", "bword-killword", "bol-killword", "yank"}
 
 var c09Keys = map[string]string{
 	"prev": "\x18\x10", "next": "\x18\x0e", "first": "\x18<", "last": "\x18>", "up": "\x10", "down": "\x0e",
@@ -79,10 +86,32 @@ func c09Gen(r *rand.Rand, tier string, idx int) any {
 		for i := 0; i < n; i++ {
 			c.Ops = append(c.Ops, pick(r, ops))
 		}
+		if c.T != "" && r.Intn(3) == 0 {
+			for i, k := 0, 1+r.Intn(3); i < k; i++ {
+				c.Edit = append(c.Edit, pick(r, c09EditNames))
+			}
+		}
 	case "prefix", "substring":
-		c.T = pick(r, []string{"", "g", "gi", "git", "git c", "echo", "e", "o", "zzz", "a", "same", "(", "hello", "wö", "a.b", "a+b", ".", "foo[", "a*b", "^a", "b$", "\\"})
+		c.T = pick(r, []string{"", "g", "gi", "git", "git c", "echo", "e", "o", "zzz", "a", "same", "(", "hello", "wö", "a.b", "a+b", ".", "foo[", "a*b", "^a", "b$", "\\", "aéx", "aé", "世界x", "世x", "éa"})
 		if len(c.T) > 1 && r.Intn(3) == 0 {
 			c.Back = 1 + r.Intn(len([]rune(c.T))-1)
+		}
+		if len(c.Hist) > 0 && r.Intn(2) == 0 {
+			// a search text taken from the history itself: the first characters of an entry
+			// (substring searches: any part of it), half of the time followed by a character
+			// that the cursor is then moved back over
+			e := []rune(strings.SplitN(pick(r, c.Hist), "\n", 2)[0])
+			if len(e) > 0 {
+				a, b := 0, 1+r.Intn(len(e))
+				if c.Kind == "substring" {
+					a = r.Intn(b)
+				}
+				c.T, c.Back = string(e[a:b]), 0
+				if r.Intn(2) == 0 {
+					c.T += pick(r, []string{"x", "é", "界"})
+					c.Back = 1
+				}
+			}
 		}
 		pfx := "p"
 		if c.Kind == "substring" {
@@ -144,6 +173,18 @@ func c09Run(env *fw.Env, raw json.RawMessage) fw.Outcome {
 	var plan []sess.Step
 	if c.T != "" {
 		plan = append(plan, sess.Step{W: c.T, Tag: "type"})
+	}
+	for _, e := range c.Edit {
+		// (one key per read, so that every buffer is observed)
+		ks := c09Edits[e]
+		for len(ks) > 0 {
+			k := 1
+			if ks[0] == 0x1b {
+				k = 2
+			}
+			plan = append(plan, sess.Step{W: ks[:k], Tag: "edit"})
+			ks = ks[k:]
+		}
 	}
 	for i := 0; i < c.Back; i++ {
 		plan = append(plan, sess.Step{W: "\x02", Tag: "back"})
@@ -208,6 +249,17 @@ func c09Run(env *fw.Env, raw json.RawMessage) fw.Outcome {
 	histClass := fmt.Sprintf("n%d", n)
 	if n > 3 {
 		histClass = "n>3"
+	}
+	if len(c.Edit) > 0 {
+		// the text being typed is what the buffer holds when the first history command arrives
+		w, ok := after[first-1]
+		if !ok {
+			o.Inc("buffer before the first history command not observed")
+			return o.O
+		}
+		c.T = w.Line
+		o.Add("cases_whose_in_progress_text_was_edited_before_the_walk", 1)
+		ctx += fmt.Sprintf(" edit=%v in-progress-text-at-the-first-history-command=%q", c.Edit, c.T)
 	}
 	switch c.Kind {
 	case "nav":
